@@ -193,9 +193,11 @@ class _CommonVisitors(visitor.NodeVisitor):
     def visit_Call(self, node: ast.Call) -> ClauseElement:
         ":meta private:"
         try:
-            handler = getattr(self, "func_" + node.func.name.lower())
+            # Use the full name, so `geo.length` is not mistaken for `length`:
+            func_name = node.func.full_name().replace(".", "__")
+            handler = getattr(self, "func_" + func_name.lower())
         except AttributeError:
-            raise ex.UnsupportedFunctionException(node.func.name)
+            raise ex.UnsupportedFunctionException(node.func.full_name())
 
         return handler(*node.args)
 
